@@ -290,3 +290,27 @@ Proof. vm_compute. auto. Qed.
 Example spellings_of_one_same_value :
   (val d_1 == val d_1_0)%Q /\ (val d_1 == val d_1e0)%Q /\ (val d_1 == val d_10em1)%Q.
 Proof. vm_compute. auto. Qed.
+
+Example equality_instances :
+  strict_eq (VNum d_1) (VNum d_1_0) = Ok true /\
+  strict_eq (VNum d_1) (VStr (str "1"%string)) = Ok false /\
+  loose_eq (VNum d_1) (VStr (str "1"%string)) = Ok true /\
+  strict_eq VNull VNull = Ok true /\ strict_eq VNull (VBool false) = Ok false /\
+  strict_eq (VStr (str "ab"%string)) (VStr (str "ab"%string)) = Ok true /\
+  binary_op KNeEq (VNum d_1) (VNum d_10em1) = Ok (VBool false) /\
+  binary_op KNe (VNum (dec_of_string (str "-0"%string))) (VNum (dec_of_string (str "0.00"%string))) = Ok (VBool false).
+Proof. vm_compute. auto 10. Qed.
+
+(* "" < "a" < "ab" < "b"; the two bytes of U+00E9 (195 169) are above "z" *)
+Example lex_instances :
+  bytes_ltb [] [97] = true /\ bytes_ltb [97] [97; 98] = true /\ bytes_ltb [97; 98] [98] = true /\
+  bytes_ltb [122] [195; 169] = true /\ bytes_ltb [97] [97] = false /\ bytes_ltb [98] [97; 98] = false.
+Proof. vm_compute. auto 10. Qed.
+
+(* why the theorems assume finite numbers: the library's Cmp answers 0 on NaN, so in the model
+   NaN is == and === to every number (and <=, >= hold while <, > do not) *)
+Example nan_compares_equal_to_everything :
+  strict_eq (VNum NaN) (VNum d_1) = Ok true /\ binary_op KEqEq (VNum NaN) (VNum d_1) = Ok (VBool true) /\
+  binary_op KLt (VNum NaN) (VNum d_1) = Ok (VBool false) /\ binary_op KLe (VNum NaN) (VNum d_1) = Ok (VBool true) /\
+  binary_op KGe (VNum NaN) (VNum d_1) = Ok (VBool true).
+Proof. vm_compute. auto 10. Qed.
